@@ -21,12 +21,12 @@ def dump_mir(scratch, crates):
     os.makedirs(CACHE, exist_ok=True)
     t0 = time.time()
     for c in [c for c in ORDER if c in crates]:
-        for flag, dst in (("mir", f"mir_{c}.txt"), ("expanded", f"exp_{c}.rs")):
+        for flag, dst in (("mir", f"mir_{c}.txt"), ("expanded", f"exp_{c}.rs"), ("stable-mir", f"smir_{c}.txt")):
             src = os.path.join(repo, "crates", c, "src", "lib.rs")
             os.utime(src, None)
             cmd = ["cargo", "+nightly", "rustc", "--offline", "-p", f"essential-{c}", "--lib", "--",
                    f"-Zunpretty={flag}"]
-            if flag == "mir":
+            if flag in ("mir", "stable-mir"):
                 cmd += ["-C", "debug-assertions=off", "-C", "overflow-checks=on"]
             p = subprocess.run(cmd, cwd=repo, env=env, capture_output=True, text=True)
             if p.returncode != 0 or not p.stdout.strip():
